@@ -455,6 +455,11 @@ func CheckRead(cs Case) (r Result) {
 	// Known defect shapes are recognised by re-running the reference machine under the one deviant
 	// reading that describes the defect; anything else is the generic mismatch.
 	key := "tt.read.mismatch"
+	if x.Designated && tt.Denote(blankChars(gotCues)) == tt.Denote(blankChars(x.Cues)) {
+		// same cues, lines, attributes and lengths: only the decoding of characters differs, after a
+		// correctly coded X/28/0 or M/29/0 that designates exactly the header's own set
+		key = "tt.read.x28-m29-designation-misread"
+	}
 	for _, dv := range []struct {
 		v   tt.Variant
 		key string
@@ -468,8 +473,30 @@ func CheckRead(cs Case) (r Result) {
 			key = dv.key
 			break
 		}
+		dv.v.Lenient = true
+		if dx := tt.Expect(cs.Stream, cs.Opts, dv.v); dx.Unsettled == "" && got == den(dx) {
+			key = dv.key
+			break
+		}
 	}
 	return Result{Key: key, Msg: fmt.Sprintf("options %+v\n expected %q\n reader returned %q", cs.Opts, want, got)}
+}
+
+func blankChars(cs []tt.Cue) []tt.Cue {
+	var o []tt.Cue
+	for _, c := range cs {
+		n := tt.Cue{Start: c.Start, End: c.End}
+		for _, l := range c.Lines {
+			nl := tt.Line{Row: l.Row, ParityErr: l.ParityErr}
+			for _, ch := range l.Chars {
+				ch.R = '?'
+				nl.Chars = append(nl.Chars, ch)
+			}
+			n.Lines = append(n.Lines, nl)
+		}
+		o = append(o, n)
+	}
+	return o
 }
 
 // option sets
